@@ -7,7 +7,7 @@
    listed class). *)
 From Coq Require Import QArith.
 From GJ Require Import Base Kernel KernelSpec KernelProofs IntersectsProofs Series SeriesSpec
-  Ring RingSpec PipProofs PairProofs Jordan JordanQ JordanGP Convex LineSound LineComplete.
+  Ring RingSpec PipProofs PairProofs Jordan JordanQ JordanGP Convex LineSound LineComplete JordanRect LineRect PointPoly.
 Open Scope Z_scope.
 
 (* X contains a point: point membership (for a single point covering = meeting) *)
@@ -147,6 +147,18 @@ Example C03_line_examples :
   line_contains_line (Lr [(0,0);(4,0);(4,4);(9,4)]) (Lr [(2,0);(5,0)]) = Some false.
 Proof. split; [exact exact_yes|exact exact_no]. Qed.
 
+(* Line.ContainsRect for every well-formed rectangle: true exactly when every rational point of the closed
+   rectangle lies on a segment of the line string.  A flat rectangle is its diagonal; a rectangle of
+   positive width and height holds more horizontal chords at different heights than the line string
+   has segments, and each chord needs a receiver segment of its own on its carrier line *)
+Theorem C03_line_contains_rect_pointset : forall ps q, ring_empty (Lr ps) = false -> rect_wf q ->
+  (line_contains_rect (Lr ps) q = Some true <-> forall k P, 0 < k -> in_rectb (scr k q) P = true -> covered (Lr ps) k P).
+Proof. exact line_contains_rect_exact. Qed.
+(* a point contains a polygon exactly when the polygon is non-empty and all its exterior vertices are that point *)
+Theorem C03_point_poly : forall p e hs,
+  point_contains_poly p (Pg e hs) = true <-> (3 <= length e)%nat /\ forall v, In v e -> v = p.
+Proof. exact point_contains_poly_spec. Qed.
+
 Print Assumptions C03_rect_rect.
 Print Assumptions C03_ring_segment_strict_exact.
 Print Assumptions C03_ring_segment_strict_pointset.
@@ -160,3 +172,5 @@ Print Assumptions C03_ring_ring_vertices.
 Print Assumptions C03_segment_segment.
 Print Assumptions C03_line_contains_line_pointset.
 Print Assumptions C03_line_contains_flat_rect_pointset.
+Print Assumptions C03_line_contains_rect_pointset.
+Print Assumptions C03_point_poly.
